@@ -316,3 +316,9 @@ V("C20", "periodicity test hoisted out of the component loop", "R20.7", (GEO, " 
 V("C05", "twin for C05: transpose dropped (all tabulated rotations are symmetric: still a proper rigid motion)", "silent", (SYM, "transformed_positions = np.dot(old_pos, best_transformation_matrix.T)", "transformed_positions = np.dot(old_pos, best_transformation_matrix)"))
 V("C05", "left-handed cells negated before spglib", "R05.5", (SYM, "        angstrom_cell = self._analyzed_system.get_cell()\n", "        angstrom_cell = self._analyzed_system.get_cell()\n        if np.linalg.det(angstrom_cell) < 0:\n            angstrom_cell = -angstrom_cell\n"))
 V("C05", "coarse snapping when re-wrapping", "R05.6", (GEO, "def get_wrapped_positions(scaled_pos, precision=1e-5):", "def get_wrapped_positions(scaled_pos, precision=1e-2):"))
+
+V("C01", "broad try/except around the region search", "R01.15", (SBC, "            i_grain, mask = periodic_finder.get_region(\n                system_copy,\n                seed_index=i_seed,\n                max_cell_size=max_cell_size,\n                pos_tol=pos_tol,\n                bond_threshold=bond_threshold,\n                overlap_threshold=overlap_threshold,\n                distances=distances,\n                return_mask=True,\n            )\n",
+  "            try:\n                i_grain, mask = periodic_finder.get_region(\n                    system_copy,\n                    seed_index=i_seed,\n                    max_cell_size=max_cell_size,\n                    pos_tol=pos_tol,\n                    bond_threshold=bond_threshold,\n                    overlap_threshold=overlap_threshold,\n                    distances=distances,\n                    return_mask=True,\n                )\n            except Exception:\n                indices.discard(i_seed)\n                continue\n"))
+V("C17", "classify swallows errors of the region search", "R17.7", (CLS, "            best_region = self.cross_validate_region(system, seed_indices, distances)\n", "            try:\n                best_region = self.cross_validate_region(system, seed_indices, distances)\n            except Exception:\n                best_region = None\n"))
+V("C17", "coverage strictly greater", "R17.2", (CLS, "covered = coverage >= self.min_coverage", "covered = coverage > self.min_coverage"))
+V("C08", "return_parameters forced on", "R08.4", (SYM, "            return_parameters=return_parameters,\n        )\n\n        return sets", "            return_parameters=True,\n        )\n\n        return sets"))
